@@ -206,6 +206,19 @@ reg(
     "DESIGN.md 4.3 C11",
 )
 
+reg(
+    "C12",
+    "prog: every public function with <= 3 (thorough 4) accelerator ops over two argument buffers and a local allocation (all reader/writer orders, ops at top "
+    "level or inside an scf.for with 0-2 trips) goes through the real set-memory-space + realize-memref-casts; input (casts = aliases) and output are "
+    "executed on a symbolic buffer machine: every op instance must read the same contents, argument buffers must end with the same contents, all "
+    "accelerator operands in L1, the signature keeps L3, no use before definition. const: transform_constant, and the arith.constant / memref.global "
+    "rewrite patterns, for every dense 2-level tiled-strided layout (every factorisation x stride order) of six shapes: new[addr(idx)] == old[rowmajor(idx)]; "
+    "transpose_tuple for all r,c <= 5.",
+    "Trusted: buffer machine in checks/C12.py (whole-buffer symbolic contents), machines/layout.py. Accelerator outputs that stand in for a cast are write-only (bodies reading their output argument are generated only on the local L1 buffer): the documented contract of RealizeMemrefCasts. Hand-placed layout-cast chains and subviews in front of operands are not generated for the program part.",
+    "bounded-exhaustive program enumeration x run-time inputs on an abstract machine; finite-domain exhaustion for constants",
+    "DESIGN.md 4.3 C12",
+)
+
 NOT_APPLICABLE = []
 
 ALL = [f"C{i:02d}" for i in range(1, 21)]
